@@ -47,7 +47,12 @@ def r18_1(ctx):
     for t, vs in multi:
         if vs:
             ctx.undecided("R18.1", f, "arm=" + "|".join(sorted(vs)), b.line_at((t, 0)), "several variants share one arm")
-    vm = F.fn(IM, "vector::vector_map")
+    # role: the local helper map() hands its vector payloads to
+    vm = None
+    for blk, t in b.calls():
+        c = F.local_callee(f, t)
+        if c is not None and c.kind == "fn" and len(t["args"]) == 2:
+            vm = c
     for v in VARIANTS:
         if v not in arms:
             if not any(v in vs for _, vs in multi):
